@@ -188,6 +188,31 @@ Proof.
     apply nth_In. rewrite tab_alphabet_len. lia.
 Qed.
 
+(* leading zero bytes correspond to leading '1' characters, in both directions *)
+Theorem encode_leading b : Bytes b -> count_leading idx0 (encode b) = count_leading 0 b.
+Proof.
+  intros Hb. unfold encode.
+  apply count_leading_repeat_app.
+  pose proof (digits_canonical 58 ltac:(lia) (value 256 b 0)) as [Hlt Hhd].
+  destruct (digits 58 (value 256 b 0)) as [|d t]; cbn [map]; [exact I|].
+  inversion Hlt as [|? ? Hd58 _]. intros E. destruct tab_idx0 as [_ E0].
+  destruct (b58_alpha d Hd58) as [E1 _]. rewrite E, E0 in E1. cbn in Hhd. congruence.
+Qed.
+
+Theorem decode_leading s : Forall (fun c => In c alphabet) s -> count_leading 0 (decode s) = count_leading idx0 s.
+Proof.
+  intros Hs. rewrite <- (encode_leading (decode s) (decode_bytes s)).
+  rewrite (encode_decode s Hs). reflexivity.
+Qed.
+
+Theorem leading_zeros b s : Bytes b -> Forall (fun c => In c alphabet) s ->
+  count_leading idx0 (encode b) = count_leading 0 b /\ count_leading 0 (decode s) = count_leading idx0 s.
+Proof. intros Hb Hs. split; [exact (encode_leading b Hb) | exact (decode_leading s Hs)]. Qed.
+
+(* idx0 is the character '1' *)
+Lemma tie_idx0 : idx0 = 49.
+Proof. reflexivity. Qed.
+
 (* ---------- Base58Check ---------- *)
 Lemma checksum_length input : length (checksum input) = 4%nat.
 Proof. unfold checksum, sha256d. rewrite firstn_length, sha256_length_32. reflexivity. Qed.
